@@ -226,3 +226,117 @@ PROPS["C07"] = dict(
     assumptions=["K-* contract clauses"],
     harnesses=[dict(pkg=FE, run="^VerifC07_Faults_p%d$" % i, replay="model", preempt=0, timeout=1500, reach=["start-error", "start-ok"] + (["callback-error"] if i & 2 else [])) for i in range(4)],
 )
+
+CT_NOTE = ("Both real endpoints (host `container` with sendLoop/recvLoop, init `containerServer` with serve/sendLoop/recvLoop/waitLoop and every handler) are built directly and run as "
+           "interpreter threads joined by a model SEQPACKET link with descriptor passing (harness/container/zz_verif_model.go); gob framing is replaced by value transfer; the launcher below "
+           "the real forkexec.Start is its C07 contract (fails early / syncs then runs / exec fails after the sync); the program is an abstract process (ends with any status at any instant or runs until killed). "
+           "Interleavings of the 7-9 threads are enumerated by the engine under a delay bound (deviations from the deterministic run-until-block scheduler); data (wait status, flags, outcomes) is symbolic and decided by z3. ")
+
+PROPS["C10"] = dict(
+    level="model_checking",
+    level_text=("Bounded model checking of the two real protocol endpoints: every history of n operations over {Ping, Open, Delete, Symlink, Reset, Execve(failure mode x sync mode)}, "
+                "every interleaving within the delay bound, optional cancellation and one transport loss at any send/receive; asserted: each call returns, the reply it consumes was produced for "
+                "its own command (ghost sequence numbers), no ok/kill is ever read as a top-level command, request/program-caused failures leave the environment usable (final Ping), "
+                "after transport loss every call fails and none hangs (deadlock = violation)."),
+    level_note=SYMEX_NOTE + CT_NOTE,
+    technique="bounded model checking of the real endpoints (symbolic data via z3, delay-bounded schedule enumeration)",
+    explanation="container.{Ping,Open,Delete,Symlink,Reset,Execve,waitForDone,...} and containerServer.{serve,handle*,...} executed as threads over a model link.",
+    bounds={"history length": "1 operation + final Ping (quick); 2 operations (thorough)", "delay bound": "1 (quick) / 2 (thorough)", "transport loss": "at most one, at any send/receive",
+            "Execve": "argv empty/non-empty, lookup fails, clone fails, child step fails, sync callback nil/ok/refusing, sync before/after exec, exec fails after sync, program ends with any status"},
+    outside=["gob stream state", "real timing of the ping deadline"],
+    assumptions=["C07 contract of forkexec.Start", "K-SOCK SEQPACKET contract"],
+    harnesses=[
+        dict(pkg=CT, run="^VerifC10_Ops1$", tiers=["quick", "thorough"], replay="model", preempt=1, timeout=1500, reach=["final-ping", "exec-fails-after-sync", "start-fails-early", "sync-refused", "lookup-fails", "program-runs"]),
+        dict(pkg=CT, run="^VerifC10_Ops1Cancel$", tiers=["quick", "thorough"], replay="model", preempt=1, timeout=1500, reach=["cancelled-run", "program-verdict"]),
+        dict(pkg=CT, run="^VerifC10_Ops1Break$", tiers=["quick", "thorough"], replay="model", preempt=1, timeout=3000, reach=["transport-lost", "ping-after-loss"]),
+        dict(pkg=CT, run="^VerifC10_Ops2$", tiers=["thorough"], replay="model", preempt=1, timeout=30000, max_paths=50000000),
+    ],
+)
+
+PROPS["C11"] = dict(
+    level="model_checking",
+    level_text=("Cancellation instants as schedule positions: the real unshare.Run, ptracer trace loop and container Execve/waitForDone + container-side handleExecveStarted run against "
+                "process/ptrace/link models with the context cancelled before the run or at any scheduling point within the delay bound; the program ends by itself (any status) or runs until killed; "
+                "asserted: the call returns (no deadlock), the program is dead and reaped, the verdict is the genuine one or Time Limit Exceeded, never Runner Error / Disallowed Syscall."),
+    level_note=SYMEX_NOTE + CT_NOTE + "Wall-clock promptness is read as 'without waiting for an event that may never happen'.",
+    technique="bounded model checking of the real cancellation paths (delay-bounded schedule enumeration + symbolic status words)",
+    explanation="unshare.Run, Tracer.trace, container.Execve with modelled wait4/kill/ptrace and a canceller thread.",
+    bounds={"delay bound": "2 (unshare, ptrace), 1 (container)", "program": "ends by itself with any wait status or runs until killed"},
+    outside=["cancellation racing with the launcher before the child has its own process group (needs launcher+tracer in one model; not built)", "Destroy during an in-flight call"],
+    assumptions=["K-PTRACE, K-PROC contracts"],
+    harnesses=[
+        dict(pkg=US, run="^VerifC11_UnshareCancel$", replay="model", preempt=2, reach=["returned", "killed", "ended-by-itself"]),
+        dict(pkg=PT, run="^VerifC11_PtraceCancel$", replay="model", preempt=2, reach=["returned"]),
+        dict(pkg=CT, run="^VerifC10_Ops1Cancel$", replay="model", preempt=1, timeout=1500, reach=["cancelled-run", "program-verdict"]),
+    ],
+)
+
+PROPS["C12"] = dict(
+    level="model_checking",
+    level_text=("Residue check on the real endpoints under the link/file/process models: after every operation of a history (Open batch, Execve in every failure/sync/cancel mode, Ping) the "
+                "descriptor tables of host and container init equal their baseline, nothing was closed twice, the program is dead and reaped, kill(-1) was issued, and the number of live "
+                "threads of both processes equals the baseline. ptrace side: the trace-loop monitor of C03 asserts group kill and reaping of every tracee before return."),
+    level_note=SYMEX_NOTE + CT_NOTE,
+    technique="bounded model checking with descriptor/process/thread accounting",
+    explanation="c12 harness over container host/init endpoints; C03 harness for the tracer.",
+    bounds={"history": "1 operation (quick), 2 (thorough)", "delay bound": "1"},
+    outside=["real process trees that daemonise (kernel clause: SIGKILL to -1 / pid-ns teardown)", "Build/Destroy of environments"],
+    assumptions=["K-PROC: kill(-1,SIGKILL) in a pid namespace kills every process but init"],
+    harnesses=[
+        dict(pkg=CT, run="^VerifC12_Ops1$", tiers=["quick", "thorough"], replay="model", preempt=1, timeout=1500, reach=["settled", "program-ran"]),
+        dict(pkg=CT, run="^VerifC12_Ops1Cancel$", tiers=["quick", "thorough"], replay="model", preempt=1, timeout=1500, reach=["settled", "program-ran"]),
+        dict(pkg=CT, run="^VerifC12_Ops2$", tiers=["thorough"], replay="model", preempt=1, timeout=30000, max_paths=50000000),
+        dict(pkg=PT, run="^VerifC03_MultiProc$", tiers=["quick", "thorough"], replay="model", timeout=900),
+    ],
+)
+
+PROPS["C14"] = dict(
+    level="other",
+    level_text=("Bounded symbolic execution of handleOpen/checkOpenTargetFile/sendReplyFiles and host Open over batches of 0..3 items where per item the MkdirAll flag, the kind of object at the "
+                "path (absent, regular, dir, symlink, fifo, socket, device, lstat error) and the mkdir/open outcomes vary; asserted: index alignment, identity of the returned descriptor's open file "
+                "with the requested path (through the descriptor-passing link), close-on-exec, OpenFile never reached for a non-regular object, no leak/double close on either side, protocol in step."),
+    level_note=SYMEX_NOTE + CT_NOTE + "Object kinds and outcomes are exploration choices/solver booleans of the file-system stubs.",
+    explanation="handleOpen + host Open executed over the link model; stubs for os.Lstat/OpenFile/MkdirAll.",
+    bounds={"batch": "0..3 items", "object kinds": "8", "host defensive path": "arbitrary reply: 0..3 batch errors, 0..3 descriptors, optional error reply (no panic/double close)"},
+    outside=["object swapped between lstat and open", "intermediate-component symlinks", "descriptors attached to replies the real container never produces"],
+    assumptions=[],
+    harnesses=[
+        dict(pkg=CT, run="^VerifC14_OpenBatch$", replay="model", preempt=0, timeout=900, reach=["empty-batch", "item-ok", "item-failed"]),
+        dict(pkg=CT, run="^VerifC14_HostDefensive$", replay="model", preempt=0, reach=["accepted", "rejected"]),
+    ],
+)
+
+PROPS["C16"] = dict(
+    level="model_checking",
+    level_text=("Crash points as schedule/solver variables: the controlling process is killed at any of its socket operations, inside the sync callback, or while idle (all its threads vanish, "
+                "its socket end closes); with the parent-death signal NOT modelled the real container endpoint must reach its exit from every crash instant without further input. "
+                "Separately, for every CloneFlags word (64-bit symbolic) the init process is started with Pdeathsig=SIGKILL and CLONE_NEWPID (default or requested); every tracee gets "
+                "PTRACE_O_EXITKILL before its first resume (C03 monitor)."),
+    level_note=SYMEX_NOTE + CT_NOTE + "The three kernel mechanisms (pdeathsig, pid-namespace teardown, EXITKILL) are clauses.",
+    technique="bounded model checking with crash injection + symbolic execution of startContainer",
+    explanation="containerServer endpoint under controller death at every host-visible step; startContainer with symbolic clone flags.",
+    bounds={"operation in flight": "Ping, Open, Execve (all start modes, sync before/after exec), idle", "delay bound": "1", "crash": "one per run"},
+    outside=["the kernel mechanisms themselves"],
+    assumptions=["init is pid 1 of its pid namespace: its exit kills everything inside"],
+    harnesses=[
+        dict(pkg=CT, run="^VerifC16_ControllerDies$", replay="model", preempt=1, timeout=1500, reach=["controller-killed", "killed-while-idle", "program-outlives-serve"]),
+        dict(pkg=CT, run="^VerifC16_InitAttrs$", replay="model", preempt=0, reach=["wants-pidns", "default-flags"]),
+        dict(pkg=PT, run="^VerifC03_MultiProc$", replay="model", timeout=900),
+    ],
+)
+
+PROPS["C17"] = dict(
+    level="model_checking",
+    level_text=("Reduced claim (2 concurrent callers): two goroutines call one environment concurrently, every interleaving within delay bound 2; each must receive the answer to its own command "
+                "(distinguishable outcomes), the protocol stays in step. The tracer's wait4/kill arguments are asserted to name only the run's own pid / process group (never -1) in the C03 harnesses."),
+    level_note=SYMEX_NOTE + CT_NOTE,
+    technique="bounded model checking (delay-bounded interleavings) of concurrent calls on the real endpoints",
+    explanation="two concurrent host calls over the link model; K-PTRACE monitor on wait4/kill targets.",
+    bounds={"threads": "2 callers (not 16)", "delay bound": "2"},
+    outside=["3+-way interactions, OS-thread scheduling, plain-memory data races", "descriptor inheritance races across concurrent launches (all descriptors are created close-on-exec atomically; not modelled further)"],
+    assumptions=[],
+    harnesses=[
+        dict(pkg=CT, run="^VerifC17_TwoCallers$", replay="model", preempt=2, timeout=1500, reach=["both-returned"]),
+        dict(pkg=PT, run="^VerifC03_Trace_Quick$", replay="model", timeout=900),
+    ],
+)
